@@ -198,3 +198,61 @@ def catalogue(rng, tier, dims=("homogeneous", "spatial_1D", "spatial_2D"), confs
             rec["error"] = e
         out.append(rec)
     return out
+
+
+# ---- 2D observation ------------------------------------------------------------------------------------------
+def glist(g):
+    return coq_list(flist(row) for row in g)
+
+
+def p2d_text(S, dt):
+    c = S.const
+    lam0 = c["solid_fraction"] * c["lambda_s"] + (1 - c["solid_fraction"]) * c["lambda_w"]
+    alpha0 = lam0 / (c["cp_solution"] * c["rho_l"])
+    Tm = c["T_eq"] + 273.15
+    K = S.k["s0"]
+    Kw = (1 / K + c["air_gap"] / c["lambda_air"]) ** (-1) if c["configuration"] == "jacket" else 0.0
+    vals = [c["height"] / 30, (c["diameter"] / 2) / 15, dt, K, Kw, lam0, alpha0, c["cp_s"], c["cp_i"], c["cp_w"], c["solid_fraction"], c["lambda_i"], c["lambda_w"],
+            c["Dh"], c["k_f"], c["M_s"], c["rho_l"], c["V"], c["mass_water"], c["mass_solute"], Tm, Tm - c["depression"]]
+    return "(MkP2 %s)" % " ".join(fhex(v) for v in vals)
+
+
+def qe_2d(S, Ttop, t, liquid_stage):
+    """evaporative heat flux per column as the 2D loops compute it (both stages use the ice correlation)"""
+    import ethz_snow.utils as U
+    c = S.const
+    if c["configuration"] != "VISF" or not (c["t_vac_start"] * 3600 < t < (c["t_vac_start"] + c["t_vac_duration"]) * 3600):
+        return np.zeros_like(Ttop)
+    p = U.vapour_pressure_solid(Ttop)
+    return -U.vapour_flux(c["kappa"], c["m_water"], c["k_B"], c["p_vac"], p, Ttop, Ttop) * c["Dh_evaporation"]
+
+
+def sn2d_case(S, dt, rng, ncool=6, nsolid=6):
+    c = S.const
+    T = np.asarray(S.temp) + 273.15
+    W = np.asarray(S.iceMassFraction)
+    sh = np.asarray(S.shelfTemp) + 273.15
+    t = np.asarray(S.time) * 3600.0
+    ie = split_run(S, dt)
+    Nz, Nr = T.shape[1], T.shape[2]
+    r = np.linspace(0, c["diameter"] / 2, Nr)
+    T0 = np.full((Nz, Nr), S.opcond.cooling["start"] + 273.15)
+    visf = c["configuration"] == "VISF"
+    ks = sorted(set(rng.sample(range(ie), min(ie, ncool)) + [ie - 1])) if ie > 0 else []
+    if visf:
+        inw = [k for k in range(ie) if c["t_vac_start"] * 3600 < t[k + 1] < (c["t_vac_start"] + c["t_vac_duration"]) * 3600]
+        ks = sorted(set(ks + inw[:2] + inw[-1:]))
+    cools = ["(%s, %s, %s, %s)" % (glist(T0), fhex(sh[0]), flist(qe_2d(S, T0[-1], 0.0, True)), glist(T[0]))]
+    for k in ks:
+        cools.append("(%s, %s, %s, %s)" % (glist(T[k]), fhex(sh[k + 1]), flist(qe_2d(S, T[k][-1], t[k + 1], True)), glist(T[k + 1])))
+    ns = T.shape[0] - (ie + 2)
+    js = sorted(set([0, 1] + rng.sample(range(ns), min(ns, nsolid)))) if ns > 1 else []
+    if visf:
+        inw = [j for j in range(ns) if c["t_vac_start"] * 3600 < t[ie + 2 + j] < (c["t_vac_start"] + c["t_vac_duration"]) * 3600]
+        js = sorted(set(js + inw[:2] + inw[-1:]))
+    solids = []
+    for j in js:
+        a, b = ie + 1 + j, ie + 2 + j
+        solids.append("(%s, %s, %s, %s, %s, %s, %s)" % (coq_bool(j > 0), glist(T[a]), glist(W[a]), fhex(sh[b]), flist(qe_2d(S, T[a][-1], t[b], False)), glist(T[b]), glist(W[b])))
+    return "(%s, %d%%nat, %d%%nat, %s, %s, %s)" % (p2d_text(S, dt), Nz, Nr, flist(r), coq_list(cools), coq_list(solids)), \
+        dict(i_end=ie, cooling_steps_checked=len(cools), solid_steps_checked=len(solids))
